@@ -180,7 +180,7 @@ class C03(Prop):
         return [proto_sweep_case()] + [fixed_case(rng, tables) for _ in range(n)]
 
     def oracle(self, case, obs, crash, tables):
-        return oracle.c01(case, obs, crash) + oracle.c03(case, obs, crash, proto_variants(tables))
+        return oracle.c03(case, obs, crash, proto_variants(tables))
 
     def nontrivial(self, case, obs):
         for o in obs:
@@ -228,7 +228,7 @@ class C08(Prop):
         return [fixed_case(rng, tables) if i % 2 == 0 else e_case(rng) for i in range(n)]
 
     def oracle(self, case, obs, crash, tables):
-        return oracle.c01(case, obs, crash) + oracle.c08(case, obs, crash)
+        return oracle.c08(case, obs, crash)
 
     def nontrivial(self, case, obs):
         for o in obs:
@@ -305,7 +305,7 @@ class C02(Prop):
         return [mixed_case(rng, tables) for _ in range(n)]
 
     def oracle(self, case, obs, crash, tables):
-        return oracle.c01(case, obs, crash) + oracle.c02(case, obs, crash)
+        return oracle.c02(case, obs, crash)
 
 
 def partition_case(rng, tables):
@@ -341,7 +341,7 @@ class C11(Prop):
         return 600 if tier == "quick" else 15000
 
     def oracle(self, case, obs, crash, tables):
-        return oracle.c01(case, obs, crash) + oracle.c11(case, obs, crash)
+        return oracle.c11(case, obs, crash)
 
     def nontrivial(self, case, obs):
         if not obs:
@@ -394,7 +394,7 @@ class C12(Prop):
         return [filter_case(rng, tables) for _ in range(n)]
 
     def oracle(self, case, obs, crash, tables):
-        return oracle.c01(case, obs, crash) + oracle.c12(case, obs, crash)
+        return oracle.c12(case, obs, crash)
 
     def nontrivial(self, case, obs):
         bp = oracle.by_parser(case, obs)
@@ -442,7 +442,7 @@ class C14(Prop):
         return [cut_case(rng, tables) for _ in range(max(1, n // 4))]
 
     def oracle(self, case, obs, crash, tables):
-        return oracle.c01(case, obs, crash) + oracle.c14(case, obs, crash)
+        return oracle.c14(case, obs, crash)
 
     def nontrivial(self, case, obs):
         return len(obs) > 2
@@ -483,7 +483,7 @@ class C16(Prop):
     def oracle(self, case, obs, crash, tables):
         # faithfulness: the values in the JSON are compared with an independent decode of the bytes
         ref = [(c, m) for c, m in oracle.c04(case, obs, crash, tables) + oracle.c05(case, obs, crash, tables) if c is None]
-        return oracle.c01(case, obs, crash) + oracle.c16(case, obs, crash) + ref
+        return oracle.c16(case, obs, crash) + ref
 
 
 def cache_case(rng, tables):
@@ -545,7 +545,7 @@ class C06(Prop):
         return out
 
     def oracle(self, case, obs, crash, tables):
-        return (oracle.c01(case, obs, crash) + oracle.c06(case, obs, crash)
+        return (oracle.c06(case, obs, crash)
                 + oracle.c04(case, obs, crash, tables) + oracle.c05(case, obs, crash, tables))
 
     def nontrivial(self, case, obs):
@@ -625,7 +625,7 @@ class C07(Prop):
         return [unknown_case(rng, tables) for _ in range(n)]
 
     def oracle(self, case, obs, crash, tables):
-        return oracle.c01(case, obs, crash) + oracle.c07(case, obs, crash)
+        return oracle.c07(case, obs, crash)
 
 
 def multi_template_case(rng, tables):
@@ -661,7 +661,7 @@ class C04(Prop):
         return [gen.conformant_stream(rng, tables, versions=(9, 9, 9, 5), parsers=rng.choice([1, 1, 2])) for _ in range(n)]
 
     def oracle(self, case, obs, crash, tables):
-        return oracle.c01(case, obs, crash) + oracle.c04(case, obs, crash, tables)
+        return oracle.c04(case, obs, crash, tables)
 
     def nontrivial(self, case, obs):
         for o in obs:
@@ -693,7 +693,7 @@ class C05(C04):
         return [multi_template_case(rng, tables)] + [gen.conformant_stream(rng, tables, versions=(10, 10, 10, 7), parsers=rng.choice([1, 1, 2])) for _ in range(n)]
 
     def oracle(self, case, obs, crash, tables):
-        return oracle.c01(case, obs, crash) + oracle.c05(case, obs, crash, tables)
+        return oracle.c05(case, obs, crash, tables)
 
 
 LOSSLESS_V9 = ["UnsignedDataNumber", "Ip4Addr", "Ip6Addr", "Vec", "ProtocolType"]
@@ -750,11 +750,12 @@ class C09(Prop):
     technique = "Coq: parse-then-print per value kind (class predicate exact_dtype defined once in Coq), per template / options-template record and per flowset envelope, for ALL accepted inputs; correspondence on X and D; oracle with the same classes"
     level_text = ("Theorems C09_* (coq/Props/C09.v): for every accepted value whose (data type, width, bytes) satisfies exact_dtype, to_be_bytes returns "
                   "exactly the bytes consumed; template and options-template records re-export exactly for every accepted input; the flowset envelope is "
-                  "id, length, body; re-export of parser output never panics (C01) and fails only for durations beyond u32 seconds. The lossy kinds "
-                  "(durations other than 4-byte seconds, MAC addresses, invalid UTF-8, protocol 145) are the known-finding classes, each with a refuting "
-                  "witness. Partial: the composition over whole packets is covered by correspondence on X, not one theorem.")
+                  "id, length, body; re-export of parser output never panics (C01). C09_packet_roundtrip: EVERY V9 packet parse_bytes "
+                  "reports whose decoded values are of the lossless kinds re-exports to exactly the bytes it occupied (any flowset mix, padding, cached "
+                  "templates). The lossy kinds (durations, MAC addresses, strings, signed integers held as I32, protocol 145) are the known-finding "
+                  "classes, each with a refuting witness.")
     level_note = "classes K_C09_* are defined by exact_dtype (Coq) and mirrored in tools/oracle.py; packet-level composition by correspondence"
-    partial = "value / record / envelope level theorems; whole-packet identity checked by correspondence and oracle"
+    partial = ""
     rule = ("V9 streams, 60% over lossless value kinds only (unsigned 1/2/3/4/8/16, IPv4/6, vectors, unknown types, named protocols) so that any "
             "difference is a new one, 40% over all kinds (exercising the known classes); 0-3 padding bytes, several flowsets of every kind per packet; "
             "non-trivial = a V9 packet with at least one data record re-exported; distinct by hash")
@@ -763,7 +764,7 @@ class C09(Prop):
         return [export_case(rng, tables, 9) for _ in range(n)]
 
     def oracle(self, case, obs, crash, tables):
-        return oracle.c01(case, obs, crash) + oracle.c09(case, obs, crash)
+        return oracle.c09(case, obs, crash)
 
     def nontrivial(self, case, obs):
         return C04.nontrivial(self, case, obs)
@@ -784,7 +785,7 @@ class C10(C09):
         return [multi_template_case(rng, tables) for _ in range(5)] + [export_case(rng, tables, 10) for _ in range(n)]
 
     def oracle(self, case, obs, crash, tables):
-        return oracle.c01(case, obs, crash) + oracle.c10(case, obs, crash, tables)
+        return oracle.c10(case, obs, crash, tables)
 
 
 def common_case(rng, tables):
@@ -814,7 +815,7 @@ class C13(Prop):
         return [common_case(rng, tables) for _ in range(n)]
 
     def oracle(self, case, obs, crash, tables):
-        return oracle.c01(case, obs, crash) + oracle.c13(case, obs, crash, tables)
+        return oracle.c13(case, obs, crash, tables)
 
     def nontrivial(self, case, obs):
         for o in obs:
@@ -843,7 +844,7 @@ class C15(Prop):
         return gen.stress_cases(rng, big=(tier == "thorough")) + [mixed_case(rng, tables) for _ in range(n)]
 
     def oracle(self, case, obs, crash, tables):
-        return oracle.c01(case, obs, crash) + oracle.c15(case, obs, crash)
+        return oracle.c15(case, obs, crash)
 
 
 class C17(Prop):
@@ -871,7 +872,7 @@ class C17(Prop):
             c.meta["default_obs"] = r
 
     def oracle(self, case, obs, crash, tables):
-        return oracle.c01(case, obs, crash) + oracle.c17(case, obs, crash, tables)
+        return oracle.c17(case, obs, crash, tables)
 
     def nontrivial(self, case, obs):
         return C04.nontrivial(self, case, obs)
